@@ -3,6 +3,7 @@ package lint
 import (
 	"fmt"
 	"go/constant"
+	"go/token"
 	"go/types"
 	"strings"
 
@@ -324,4 +325,227 @@ func (c *Ctx) formatRecursionRule(r *Report, rule string) {
 	if n == 0 {
 		r.ok(rule, "no formatting method in the module", "-", "nothing to check", true)
 	}
+}
+
+// ErrorHygiene runs, under every property, the failure-reporting rules that no property-specific rule replaces:
+// no pkg/errors wrapper is applied to an error that is nil at that point (the failure exit would report
+// success); the error of a call to a module function is tested (not dropped, not led back into the success
+// path); after io.ReadFull success is reported only behind a test that the read was complete. hash.Hash.Write
+// is documented never to fail and its error result is not subject to a rule (a variant that drops it is
+// behaviour-preserving for every registered algorithm).
+func (c *Ctx) ErrorHygiene(r *Report, prefix string, skipWrap bool) {
+	// the property's own code: the functions its rules analysed (Report.Func) and everything they call
+	var roots []*ssa.Function
+	for _, fn := range c.ModFuncs {
+		if len(fn.Blocks) > 0 && r.Funcs[c.FuncName(fn)] {
+			roots = append(roots, fn)
+		}
+	}
+	var scope []*ssa.Function
+	inScope := map[*ssa.Function]bool{}
+	for _, fn := range c.Reachable(roots...) {
+		if len(fn.Blocks) > 0 && c.InModule(fn) && !inScope[fn] {
+			inScope[fn] = true
+			scope = append(scope, fn)
+		}
+	}
+	// closures of functions in scope
+	for _, fn := range c.ModFuncs {
+		if p := fn.Parent(); p != nil && len(fn.Blocks) > 0 && !inScope[fn] {
+			for p.Parent() != nil {
+				p = p.Parent()
+			}
+			if inScope[p] {
+				inScope[fn] = true
+				scope = append(scope, fn)
+			}
+		}
+	}
+	if !skipWrap {
+		c.wrapOfNilRule(r, prefix+"error.wrap-of-nil", scope, 0)
+	}
+	ruleP := prefix + "error.callee-errors-propagate"
+	r.Rule(ruleP, "in every module function that itself returns an error, the error result of every call to a module function is tested and its failing edge leads only to failure returns (or the error is returned): no refusal of a callee is dropped, downgraded or merged back into the success path", 0)
+	for _, fn := range scope {
+		res := fn.Signature.Results()
+		if res.Len() == 0 || !isErrorType(res.At(res.Len()-1).Type()) {
+			continue
+		}
+		for _, b := range fn.Blocks {
+			for _, ins := range b.Instrs {
+				call, ok := ins.(*ssa.Call)
+				if !ok || errResult(call) == nil || len(c.CalleesAt(call).Mod) == 0 {
+					continue
+				}
+				okc, why := c.errorChecked(call)
+				if !okc && imprecise(why) {
+					okc, why = true, "the error is tested; what the failing edge returns is left to the property's own rules ("+why+")"
+				}
+				r.Check(okc, ruleP, c.FuncName(fn)+": "+c.SrcExpr(call), c.InstrPos(call), why, why)
+			}
+		}
+	}
+	c.readFullRule(r, prefix+"error.readfull-complete", scope)
+}
+
+// setterAtomicRule: a refused SetAttr leaves the message as it was: in (*EapAkaPrime).SetAttr no update of the
+// attribute map is followed, on any path, by a return of a non-nil error (an entry registered before its value was
+// validated stays behind as a half-built attribute that GetAttr reports and Marshal then refuses).
+func (c *Ctx) setterAtomicRule(r *Report, rule string) {
+	r.Rule(rule, "(*EapAkaPrime).SetAttr updates the attribute map only on paths that end in success: no map update can be followed by a failure return", 1)
+	fn := c.Method("eap", "EapAkaPrime", "SetAttr")
+	if fn == nil {
+		r.undecided(rule, "anchor eap.EapAkaPrime.SetAttr", "-", "anchor does not resolve")
+		return
+	}
+	r.Func(c.FuncName(fn))
+	n := 0
+	for _, b := range fn.Blocks {
+		for _, ins := range b.Instrs {
+			mu, ok := ins.(*ssa.MapUpdate)
+			if !ok {
+				continue
+			}
+			n++
+			bad := ""
+			for _, rb := range fn.Blocks {
+				ret, ok := rb.Instrs[len(rb.Instrs)-1].(*ssa.Return)
+				if !ok || len(ret.Results) == 0 || isNilConst(ret.Results[len(ret.Results)-1]) {
+					continue
+				}
+				if rb == b || c.blockReaches(b, rb) {
+					reach := rb != b
+					if rb == b {
+						reach = true // the return follows the update in the same block
+					}
+					if reach {
+						bad = "the failure return at " + c.InstrPos(ret) + " is reachable after the map update"
+					}
+				}
+			}
+			r.Check(bad == "", rule, c.FuncName(fn)+": "+c.SrcExpr(mu), c.InstrPos(mu), "only success returns follow the update", bad+": a refused call leaves an entry behind")
+		}
+	}
+	if n == 0 {
+		r.undecided(rule, c.FuncName(fn), c.Pos(fn.Pos()), "no update of the attribute map found in the setter")
+	}
+}
+
+// readFullRule: io.ReadFull reports err == nil exactly when it filled the whole buffer. What a decoder does with
+// the buffer afterwards is right only behind an edge that established one of the two: the nil edge of a test of
+// the error, or the equal edge of a test of the count against a constant / the buffer length. From every
+// io.ReadFull call of the module no success return (nil error) is reachable without crossing such an edge - an
+// `if err == io.EOF { break }` that only leaves a switch, placed in front of the count test, keeps a
+// half-read attribute and reports success.
+func (c *Ctx) readFullRule(r *Report, rule string, scope []*ssa.Function) {
+	r.Rule(rule, "after every io.ReadFull a success return is reachable only across an edge that established a complete read (error tested nil, or the count tested equal to the requested length)", 0)
+	for _, fn := range scope {
+		if len(fn.Blocks) == 0 {
+			continue
+		}
+		res := fn.Signature.Results()
+		if res.Len() == 0 || !isErrorType(res.At(res.Len()-1).Type()) {
+			continue
+		}
+		for _, b := range fn.Blocks {
+			for _, ins := range b.Instrs {
+				call := staticCallTo(valueOf(ins), "io.ReadFull")
+				if call == nil {
+					continue
+				}
+				var nV, eV ssa.Value
+				for _, ref := range *call.Referrers() {
+					if ex, ok := ref.(*ssa.Extract); ok {
+						if ex.Index == 0 {
+							nV = ex
+						} else {
+							eV = ex
+						}
+					}
+				}
+				type edge struct {
+					from *ssa.BasicBlock
+					to   int
+				}
+				good := map[edge]bool{}
+				for _, x := range fn.Blocks {
+					iff, ok := x.Instrs[len(x.Instrs)-1].(*ssa.If)
+					if !ok {
+						continue
+					}
+					cond, ok := iff.Cond.(*ssa.BinOp)
+					if !ok || (cond.Op != token.EQL && cond.Op != token.NEQ) {
+						continue
+					}
+					eq := 0
+					if cond.Op == token.NEQ {
+						eq = 1
+					}
+					switch {
+					case eV != nil && (cond.X == eV && isNilConst(cond.Y) || cond.Y == eV && isNilConst(cond.X)):
+						good[edge{x, eq}] = true
+					case nV != nil && (cond.X == nV || cond.Y == nV):
+						// the count compared with the requested length, however that is spelled
+						good[edge{x, eq}] = true
+					}
+				}
+				// a success return reachable from the call without crossing a good edge
+				bad := ""
+				type vis struct{ x, from *ssa.BasicBlock }
+				seen := map[vis]bool{}
+				var dfs func(x, from *ssa.BasicBlock)
+				dfs = func(x, from *ssa.BasicBlock) {
+					if seen[vis{x, from}] || bad != "" {
+						return
+					}
+					seen[vis{x, from}] = true
+					if ret, ok := x.Instrs[len(x.Instrs)-1].(*ssa.Return); ok {
+						// off the good edges the read was incomplete, and then its error is not nil (io.ReadFull's contract)
+						if e := ret.Results[len(ret.Results)-1]; isNilConst(e) || (!c.nonNilError(e, eV, 0) && c.knownNilAt(e, x, 0) != "") {
+							bad = "the return at " + c.InstrPos(ret) + " (a success) is reachable from the read without a test that the read was complete"
+						}
+						return
+					}
+					// a merged error variable tested right at the merge: over the edge we came in by it holds a
+					// non-nil error (the failure just built), so only the non-nil side is taken
+					only := -1
+					if iff, ok := x.Instrs[len(x.Instrs)-1].(*ssa.If); ok && from != nil {
+						if cond, ok := iff.Cond.(*ssa.BinOp); ok && (cond.Op == token.EQL || cond.Op == token.NEQ) {
+							var tested ssa.Value
+							if isNilConst(cond.Y) {
+								tested = cond.X
+							} else if isNilConst(cond.X) {
+								tested = cond.Y
+							}
+							if ph, ok := tested.(*ssa.Phi); ok && ph.Block() == x {
+								for i, p := range x.Preds {
+									if p == from && c.nonNilError(ph.Edges[i], eV, 0) {
+										only = 0 // NEQ: true side is non-nil
+										if cond.Op == token.EQL {
+											only = 1
+										}
+									}
+								}
+							}
+						}
+					}
+					for i, s := range x.Succs {
+						if good[edge{x, i}] || (only >= 0 && i != only) {
+							continue
+						}
+						dfs(s, x)
+					}
+				}
+				dfs(b, nil)
+				r.Check(bad == "", rule, c.FuncName(fn)+": "+c.SrcExpr(call), c.InstrPos(call), "every way on from the read crosses `err == nil` or `n == requested` or ends in a failure return", bad)
+			}
+		}
+	}
+}
+
+// imprecise: verdicts of errorChecked about the *value* a failing edge returns (through merges of inlined
+// helpers, named results and wrappers) are not exact enough for a module-wide rule; that the error is tested at
+// all, not dropped, not overwritten and not led back into the success path is.
+func imprecise(why string) bool {
+	return strings.Contains(why, "may return a nil error") || strings.Contains(why, "together with the error")
 }
